@@ -113,7 +113,7 @@ def initial_state(eng, key, contract, kinds):
         node = ast.parse("def %s(%s):\n    pass\n" % (qual, ", ".join(contract.get("params") or {}))).body[0]
     else:
         mod = src_module(relpath, eng.cset.root)
-        node = mod.func(qual)
+        node = mod.func(qual.split("~")[0])          # "path::func~variant": a second contract (other parameter domain) on the same function
     st = State()
     st.frames[0] = ({}, None, mod)
     st.cur = 0
